@@ -2,6 +2,7 @@ package simrt
 
 import (
 	"sort"
+	"strings"
 	"sync"
 )
 
@@ -17,6 +18,7 @@ type lockCore struct {
 	pendingW int  // writers that have announced themselves (block new readers)
 	holderW  *Task
 	holdersR map[*Task]int
+	holderG  uintptr // free mode: goroutine holding the write lock
 }
 
 func (l *lockCore) init() {
@@ -43,6 +45,107 @@ func (l *lockCore) holders() []*Task {
 func (l *lockCore) canWrite() bool { l.mu.Lock(); defer l.mu.Unlock(); return !l.w && l.r == 0 }
 func (l *lockCore) canRead() bool  { l.mu.Lock(); defer l.mu.Unlock(); return !l.w && l.pendingW == 0 }
 
+// free-mode registry of goroutines waiting for a lock (diagnosis of wedges)
+type fwWaiter struct {
+	pc uintptr
+	g  uintptr
+	l  *lockCore
+}
+
+var (
+	fwMu      sync.Mutex
+	fwWaiters = map[uint64]fwWaiter{} // waiter id -> who waits where for what
+	fwNext    uint64
+)
+
+func fwAddL(pc uintptr, l *lockCore) uint64 {
+	fwMu.Lock()
+	fwNext++
+	id := fwNext
+	fwWaiters[id] = fwWaiter{pc, getg(), l}
+	fwMu.Unlock()
+	return id
+}
+
+// FreeLockCycle looks for a cycle in the free-mode wait-for graph (waiter ->
+// goroutine holding the write lock it waits for), including self-deadlock, and
+// returns the call sites of the waiters on the cycle (sorted), or nil.
+func FreeLockCycle() []string {
+	fwMu.Lock()
+	defer fwMu.Unlock()
+	byG := map[uintptr]fwWaiter{}
+	for _, w := range fwWaiters {
+		byG[w.g] = w
+	}
+	var gs []uintptr
+	for g := range byG {
+		gs = append(gs, g)
+	}
+	best := []string(nil)
+	for _, start := range gs {
+		var path []string
+		g := start
+		for i := 0; i < 16; i++ {
+			w, ok := byG[g]
+			if !ok {
+				path = nil
+				break
+			}
+			path = append(path, SiteOf(w.pc))
+			w.l.mu.Lock()
+			h := w.l.holderG
+			w.l.mu.Unlock()
+			if h == 0 {
+				path = nil
+				break
+			}
+			if h == start {
+				break
+			}
+			g = h
+			if i == 15 {
+				path = nil
+			}
+		}
+		if path != nil {
+			sort.Strings(path)
+			if best == nil || len(path) < len(best) || (len(path) == len(best) && strings.Join(path, "+") < strings.Join(best, "+")) {
+				best = path
+			}
+		}
+	}
+	return best
+}
+
+func fwDel(id uint64) {
+	fwMu.Lock()
+	delete(fwWaiters, id)
+	fwMu.Unlock()
+}
+
+// FreeLockWaiters returns the call sites (file:line, sorted, distinct) at which
+// free-mode goroutines are currently blocked waiting for an instrumented lock.
+func FreeLockWaiters() []string {
+	fwMu.Lock()
+	seen := map[string]bool{}
+	for _, w := range fwWaiters {
+		seen[SiteOf(w.pc)] = true
+	}
+	fwMu.Unlock()
+	out := make([]string, 0, len(seen))
+	for s := range seen {
+		out = append(out, s)
+	}
+	sort.Strings(out)
+	return out
+}
+
+func resetFreeWaiters() {
+	fwMu.Lock()
+	fwWaiters = map[uint64]fwWaiter{}
+	fwMu.Unlock()
+}
+
 func (l *lockCore) lock(kind string) {
 	t := taskFor()
 	if t == nil {
@@ -50,14 +153,19 @@ func (l *lockCore) lock(kind string) {
 		l.mu.Lock()
 		l.init()
 		l.pendingW++
-		for l.w || l.r > 0 {
-			if l.cond == nil {
-				l.cond = sync.NewCond(&l.mu)
+		if l.w || l.r > 0 {
+			id := fwAddL(sitePC(4), l)
+			for l.w || l.r > 0 {
+				if l.cond == nil {
+					l.cond = sync.NewCond(&l.mu)
+				}
+				l.cond.Wait()
 			}
-			l.cond.Wait()
+			fwDel(id)
 		}
 		l.pendingW--
 		l.w = true
+		l.holderG = getg()
 		l.mu.Unlock()
 		return
 	}
@@ -94,6 +202,7 @@ func (l *lockCore) unlock() {
 	l.mu.Lock()
 	l.w = false
 	l.holderW = nil
+	l.holderG = 0
 	if l.cond != nil {
 		l.cond.Broadcast()
 	}
@@ -106,11 +215,15 @@ func (l *lockCore) rlock() {
 		checkDying()
 		l.mu.Lock()
 		l.init()
-		for l.w || l.pendingW > 0 {
-			if l.cond == nil {
-				l.cond = sync.NewCond(&l.mu)
+		if l.w || l.pendingW > 0 {
+			id := fwAddL(sitePC(4), l)
+			for l.w || l.pendingW > 0 {
+				if l.cond == nil {
+					l.cond = sync.NewCond(&l.mu)
+				}
+				l.cond.Wait()
 			}
-			l.cond.Wait()
+			fwDel(id)
 		}
 		l.r++
 		l.mu.Unlock()
